@@ -150,7 +150,7 @@ func universeFor(tier string) *uni {
 
 func (u *uni) describe() string {
 	return fmt.Sprintf("atoms = {Exists, DoesNotExist} + {In,NotIn} x every list of <=%d values from %v + {Gt,Lt,Gte,Lte} x %v (%d atoms); every ordered pair and every ordered triple of atoms; "+
-		"single-key requirement sets {undefined | 1 atom | 2 atoms} x the same, for Compatible/Intersects under strict and AllowUndefinedWellKnownLabels on a custom key, a well-known key and its alias; "+
+		"single-key requirement sets {undefined | 1 atom | 2 atoms with <=2 arguments each} x the same, for Compatible/Intersects under strict and AllowUndefinedWellKnownLabels on a custom key, a well-known key and its alias; "+
 		"%d probe label values per check + the absent label (complete witness set for conjunctions of <=%d atoms)",
 		u.cfg.maxSet, u.cfg.values, u.cfg.bounds, len(u.atoms), u.nP, u.cfg.maxConj)
 }
@@ -686,8 +686,15 @@ func (u *uni) buildSides() {
 		for _, i := range ok {
 			u.sides = append(u.sides, u.mkSide(conj{u.atoms[i]}, u.orc[i], u.bad[i], i, -1))
 		}
-		for x, i := range ok {
-			for _, j := range ok[x+1:] {
+		// two-atom sets: atoms with at most two arguments (keeps the thorough tier's square of sets tractable)
+		var small []int
+		for _, i := range ok {
+			if len(u.atoms[i].Vals) <= 2 {
+				small = append(small, i)
+			}
+		}
+		for x, i := range small {
+			for _, j := range small[x+1:] {
 				u.sides = append(u.sides, u.mkSide(conj{u.atoms[i], u.atoms[j]}, u.orc[i].and(u.orc[j]), u.bad[i] || u.bad[j], i, j))
 			}
 		}
@@ -1042,6 +1049,12 @@ func runRandomCompat(r *mon.Report, rng *rand.Rand) {
 	}
 	first, second := randSet(rng, keys), randSet(rng, keys)
 	allow := rng.Intn(2) == 0
+	r.Inc("random_set_pairs")
+	checkSets(r, first, second, allow, 20)
+}
+
+// checkSets judges Compatible / Intersects of two explicit multi-key requirement sets.
+func checkSets(r *mon.Report, first, second []keyed, allow bool, baseScore int) {
 	var all conj
 	excl := 0
 	for _, k := range append(append([]keyed{}, first...), second...) {
@@ -1072,7 +1085,6 @@ func runRandomCompat(r *mon.Report, rng *rand.Rand) {
 	}
 	R, ok1 := mk(first)
 	Q, ok2 := mk(second)
-	r.Inc("random_set_pairs")
 	if !ok1 || !ok2 {
 		r.Inc("skipped_atom_level_violation_involved")
 		return
@@ -1175,24 +1187,226 @@ func runRandomCompat(r *mon.Report, rng *rand.Rand) {
 		key = strings.ToLower(method) + "-" + d + ":multi-key-sets"
 	}
 	wit["per_key_shapes_first|second"] = shape()
+	ops := map[string]string{}
+	for _, k := range sortedKeys {
+		f, q := "<undefined>", "<undefined>"
+		if R.Has(k) {
+			f = string(R.Get(k).Operator())
+		}
+		if Q.Has(k) {
+			q = string(Q.Get(k).Operator())
+		}
+		ops[k] = "first.Operator()=" + f + " second.Operator()=" + q
+	}
+	wit["Operator_per_key"] = ops
 	what := fmt.Sprintf("Requirements.%s(first=%v, second=%v, allowUndefinedWellKnown=%v) ok=%v but %s", method, first, second, allow, got, explain(want))
 	if t, ok := classText[key]; ok {
 		what += " — " + t
 	}
-	report(r, key, 20+realism(all), fmt.Sprint(first, second), what, cs, wit)
+	report(r, key, baseScore+realism(all), fmt.Sprint(first, second), what, cs, wit)
+}
+
+// ---- pod versus concrete node: the whole path NewLabelRequirements(node labels).Compatible(NewStrictPodRequirements(pod))
+// (ExistingNode.CanAdd, daemon overhead on existing nodes) judged by the upstream matcher on the same pod and node ----
+
+var pvnKeys = []string{"example.com/a", "example.com/b", keyZone}
+var pvnVals = []string{"1", "3", "5", "7", "a", "b", "05"}
+var pvnBounds = []string{"0", "2", "4", "5", "6"}
+
+func runPodVsNode(r *mon.Report, rng *rand.Rand, fixed *corev1.Pod, fixedLabels map[string]string, score int) {
+	labels := map[string]string{"kubernetes.io/hostname": "n1"}
+	pod := fixed
+	if pod == nil {
+		for _, k := range pvnKeys {
+			if rng.Intn(2) == 0 {
+				labels[k] = pvnVals[rng.Intn(len(pvnVals))]
+			}
+		}
+		pod = &corev1.Pod{ObjectMeta: metav1.ObjectMeta{Name: "p", Namespace: "default"}}
+		if rng.Intn(3) == 0 {
+			pod.Spec.NodeSelector = map[string]string{pvnKeys[rng.Intn(len(pvnKeys))]: pvnVals[rng.Intn(len(pvnVals))]}
+		}
+		var exprs []corev1.NodeSelectorRequirement
+		for i, n := 0, 1+rng.Intn(4); i < n; i++ {
+			e := corev1.NodeSelectorRequirement{Key: pvnKeys[rng.Intn(2+rng.Intn(2))]}
+			switch x := rng.Intn(12); {
+			case x < 3:
+				e.Operator, e.Values = corev1.NodeSelectorOpIn, randFrom(rng, pvnVals, 1+rng.Intn(3))
+			case x < 6:
+				e.Operator, e.Values = corev1.NodeSelectorOpNotIn, randFrom(rng, pvnVals, 1+rng.Intn(3))
+			case x < 7:
+				e.Operator = corev1.NodeSelectorOpExists
+			case x < 8:
+				e.Operator = corev1.NodeSelectorOpDoesNotExist
+			case x < 10:
+				e.Operator, e.Values = corev1.NodeSelectorOpGt, randFrom(rng, pvnBounds, 1)
+			default:
+				e.Operator, e.Values = corev1.NodeSelectorOpLt, randFrom(rng, pvnBounds, 1)
+			}
+			exprs = append(exprs, e)
+		}
+		pod.Spec.Affinity = &corev1.Affinity{NodeAffinity: &corev1.NodeAffinity{RequiredDuringSchedulingIgnoredDuringExecution: &corev1.NodeSelector{
+			NodeSelectorTerms: []corev1.NodeSelectorTerm{{MatchExpressions: exprs}}}}}
+	} else {
+		for k, v := range fixedLabels {
+			labels[k] = v
+		}
+	}
+	node := &corev1.Node{ObjectMeta: metav1.ObjectMeta{Name: "n1", Labels: labels}}
+	up, err := nodeaffinity.GetRequiredNodeAffinity(pod).Match(node)
+	if err != nil {
+		r.Inc("upstream_rejected_selector")
+		return
+	}
+	// the pod's constraint per key, for the first-principles verdict and for classification
+	byKey := map[string]conj{}
+	for k, v := range pod.Spec.NodeSelector {
+		byKey[k] = append(byKey[k], atom{"In", []string{v}})
+	}
+	for _, e := range pod.Spec.Affinity.NodeAffinity.RequiredDuringSchedulingIgnoredDuringExecution.NodeSelectorTerms[0].MatchExpressions {
+		byKey[e.Key] = append(byKey[e.Key], atom{string(e.Operator), e.Values})
+	}
+	keys := make([]string, 0, len(byKey))
+	for k := range byKey {
+		keys = append(keys, k)
+	}
+	sort.Strings(keys)
+	own, failing := true, ""
+	for _, k := range keys {
+		v, present := labels[k]
+		for _, a := range byKey[k] {
+			if !oracleAdmits(a, v, present) {
+				own = false
+				if failing == "" {
+					failing = k
+				}
+			}
+		}
+	}
+	if own != up {
+		r.Inconcl("ORACLE SELF-CHECK: upstream required-node-affinity Match=%v but first-principles evaluation=%v for pod %v on labels %v", up, own, byKey, labels)
+		r.Inc("oracle_upstream_disagreements")
+		return
+	}
+	nodeReqs := scheduling.NewLabelRequirements(labels)
+	podReqs := scheduling.NewStrictPodRequirements(pod)
+	got := nodeReqs.Compatible(podReqs) == nil
+	r.Inc("pod_vs_node_checks")
+	if up {
+		r.Inc("pod_vs_node_upstream_matches")
+	} else {
+		r.Inc("pod_vs_node_upstream_rejects")
+	}
+	if got == up {
+		return
+	}
+	key := "pod-vs-node-rejects-but-kubernetes-admits"
+	if got {
+		key = "pod-vs-node-accepts-but-kubernetes-rejects"
+		c := byKey[failing]
+		_, present := labels[failing]
+		ne, _ := nonEmptyExact(c)
+		abs := admitsAbsent(c)
+		op := podReqs.Get(failing).Operator()
+		switch {
+		case present:
+			key += ":label-present/" + c.class()
+		case !ne && !abs && absentOK(op):
+			key = "unsat-conjunction-treated-as-DoesNotExist"
+		case ne && !abs && absentOK(op) && c.hasBound():
+			key = "bounded-complement-with-exclusion-reports-NotIn-absent-allowed"
+		case ne && !abs && absentOK(op):
+			key = "exists-and-notin-collapses-to-NotIn-absent-allowed"
+		default:
+			key += ":label-absent/" + c.class()
+		}
+	} else {
+		key += ":" + byKey[failing].class()
+	}
+	desc := map[string]string{}
+	for _, k := range keys {
+		desc[k] = byKey[k].String() + " => Operator()=" + string(podReqs.Get(k).Operator())
+	}
+	what := fmt.Sprintf("NewLabelRequirements(node labels %v).Compatible(NewStrictPodRequirements(pod)) ok=%v but the upstream kube-scheduler matcher (nodeSelector + required node affinity) says %v; pod constraints per key: %v",
+		labels, got, up, desc)
+	if t, ok := classText[key]; ok {
+		what += " — " + t
+	}
+	all := conj{}
+	for _, k := range keys {
+		all = append(all, byKey[k]...)
+	}
+	report(r, key, score+realism(all), fmt.Sprint(labels, desc), what,
+		map[string]any{"node_labels": labels, "pod_nodeSelector": pod.Spec.NodeSelector, "pod_required_term": pod.Spec.Affinity.NodeAffinity.RequiredDuringSchedulingIgnoredDuringExecution.NodeSelectorTerms[0].MatchExpressions},
+		map[string]any{"Compatible_ok": got, "upstream_Match": up, "pod_requirements": podReqs.String(), "node_requirements": nodeReqs.String(), "first_unsatisfied_key": failing})
+}
+
+func oracleAdmits(a atom, v string, present bool) bool { return oracleBitsOne(a, v, present) }
+
+func randFrom(rng *rand.Rand, pool []string, n int) []string {
+	p := rng.Perm(len(pool))
+	out := make([]string, 0, n)
+	for _, i := range p[:n] {
+		out = append(out, pool[i])
+	}
+	return out
+}
+
+func canonicalPod(sel map[string]string, exprs ...corev1.NodeSelectorRequirement) *corev1.Pod {
+	return &corev1.Pod{ObjectMeta: metav1.ObjectMeta{Name: "p", Namespace: "default"}, Spec: corev1.PodSpec{NodeSelector: sel,
+		Affinity: &corev1.Affinity{NodeAffinity: &corev1.NodeAffinity{RequiredDuringSchedulingIgnoredDuringExecution: &corev1.NodeSelector{
+			NodeSelectorTerms: []corev1.NodeSelectorTerm{{MatchExpressions: exprs}}}}}}}
 }
 
 func runRandomChunk(r *mon.Report, tier string, idx int, rng *rand.Rand) {
-	per := 10000
+	per := 5000
 	if tier == "thorough" {
-		per = 40000
+		per = 100000
 	}
 	for k := 0; k < per; k++ {
 		runRandomAlgebra(r, rng)
 		runRandomCompat(r, rng)
+		runPodVsNode(r, rng, nil, nil, 10)
 	}
 	r.Eval()
 	r.Sig("random-chunk-%d", idx)
+}
+
+// ---- canonical scenarios (case 0): the everyday shapes of the probe-confirmed suspicions, so that the primary
+// witnesses of each class are readable; they go through exactly the same monitors as everything else ----
+
+func runCanonical(r *mon.Report) {
+	k := "example.com/team"
+	none := []keyed{}
+	// nodeSelector team=blue + required affinity team In [red]; the NodePool does not define the key
+	checkSets(r, none, []keyed{{k, atom{"In", []string{"blue"}}}, {k, atom{"In", []string{"red"}}}}, false, -10)
+	// "has a team label, and it is not a": Exists + NotIn
+	checkSets(r, none, []keyed{{k, atom{"Exists", nil}}, {k, atom{"NotIn", []string{"a"}}}}, false, -10)
+	// NotIn [7] + Gt 5 (an excluded value inside the range survives the bounds filter; NotIn [a] + Gt 5 does not and is handled correctly)
+	checkSets(r, none, []keyed{{"example.com/size", atom{"NotIn", []string{"7"}}}, {"example.com/size", atom{"Gt", []string{"5"}}}}, false, -10)
+	checkSets(r, none, []keyed{{"example.com/size", atom{"NotIn", []string{"a"}}}, {"example.com/size", atom{"Gt", []string{"5"}}}}, false, -10)
+	// the same three against a node / NodePool that says the label does not exist
+	dne := []keyed{{k, atom{"DoesNotExist", nil}}}
+	checkSets(r, dne, []keyed{{k, atom{"In", []string{"blue"}}}, {k, atom{"In", []string{"red"}}}}, false, -9)
+	checkSets(r, dne, []keyed{{k, atom{"Exists", nil}}, {k, atom{"NotIn", []string{"a"}}}}, false, -9)
+	checkSets(r, dne, []keyed{{k, atom{"NotIn", []string{"7"}}}, {k, atom{"Gt", []string{"5"}}}}, false, -9)
+	r.Count("canonical_scenarios", 7)
+	// the same shapes as real pods against a real node that lacks the label, judged by the upstream matcher
+	team := "example.com/team"
+	runPodVsNode(r, nil, canonicalPod(map[string]string{team: "blue"}, corev1.NodeSelectorRequirement{Key: team, Operator: corev1.NodeSelectorOpIn, Values: []string{"red"}}), nil, -20)
+	runPodVsNode(r, nil, canonicalPod(nil, corev1.NodeSelectorRequirement{Key: team, Operator: corev1.NodeSelectorOpExists},
+		corev1.NodeSelectorRequirement{Key: team, Operator: corev1.NodeSelectorOpNotIn, Values: []string{"a"}}), nil, -20)
+	runPodVsNode(r, nil, canonicalPod(nil, corev1.NodeSelectorRequirement{Key: "example.com/size", Operator: corev1.NodeSelectorOpGt, Values: []string{"5"}},
+		corev1.NodeSelectorRequirement{Key: "example.com/size", Operator: corev1.NodeSelectorOpNotIn, Values: []string{"7"}}), nil, -20)
+	r.Count("canonical_scenarios", 3)
+	// Gt 4 AND Lt 6 versus NotIn [5]
+	ca, cb := conj{{"Gt", []string{"4"}}, {"Lt", []string{"6"}}}, conj{{"NotIn", []string{"5"}}}
+	all := append(append(conj{}, ca...), cb...)
+	probes := buildProbes(all, 1)
+	qa := newReq(keyCustom, ca[0], nil).Intersection(newReq(keyCustom, ca[1], nil))
+	qb := newReq(keyCustom, cb[0], nil)
+	checkOverlap(r, probes, len(probes), qa, qb, ca, cb, conjBits(all, probes))
+	r.Inc("canonical_scenarios")
 }
 
 // ---- table self-check (once) ----
@@ -1234,6 +1448,7 @@ func run(r *mon.Report, tier string, idx int, rng *rand.Rand) {
 		case idx < algebraShards:
 			if idx == 0 {
 				checkTables(r)
+				runCanonical(r)
 			}
 			runAlgebraShard(r, tier, idx)
 		case idx < algebraShards+compatShards:
@@ -1268,7 +1483,8 @@ func init() {
 			"commutativity_checks": 5000, "idempotence_checks": 5000, "minvalues_checks": 1000, "add_vs_intersection_checks": 5000, "alias_checks": 100,
 			"upstream_crosschecked_selectors": 50, "compat_checks": 100000, "compat_oracle_true": 1000, "compat_oracle_false": 1000,
 			"compat_undefined_key_in_first": 1000, "compat_undefined_key_allowed_by_option": 100, "compat_alias_vs_canonical_key": 100, "compat_multi_key": 1000,
-			"associativity_random_folds": 1000, "table_checks": 1,
+			"associativity_random_folds": 1000, "table_checks": 1, "canonical_scenarios": 11,
+			"pod_vs_node_checks": 10000, "pod_vs_node_upstream_matches": 1000, "pod_vs_node_upstream_rejects": 1000,
 		},
 	})
 }
